@@ -310,6 +310,9 @@ CORPUS = [
     {"t": "SemiAdder", "regs": {"x": [5, 1, 3], "y": [0, 2, 4], "work": [6, 7]}, "order": list(range(8)), "matrix": True},
     {"t": "Incrementer", "regs": {"x": [0, 1, 2], "work": [3, 4]}, "order": list(range(5)), "matrix": True},
     {"t": "Incrementer", "regs": {"x": [4, 2, 0, 1], "work": [3, 5, 6]}, "order": list(range(7)), "matrix": True},
+    # controlled Incrementer with two and three controls (own registered rule, ladder over the control wires)
+    {"t": "Incrementer", "regs": {"x": [0, 1, 2], "work": [3, 4, 5, 6], "ctrl": [7, 8]}, "ctrl": {"w": [7, 8], "v": [1, 1]}, "order": list(range(9))},
+    {"t": "Incrementer", "regs": {"x": [1, 0], "work": [2, 3, 4, 5], "ctrl": [6, 7, 8]}, "ctrl": {"w": [6, 7, 8], "v": [1, 0, 1]}, "order": list(range(9))},
     {"t": "IntegerComparator", "k": 4, "geq": True, "regs": {"x": [0, 1, 2], "tgt": [3]}, "order": list(range(4)), "matrix": True},
     {"t": "IntegerComparator", "k": 3, "geq": False, "regs": {"x": [0, 1, 2], "tgt": [3]}, "order": list(range(4)), "matrix": True},
     {"t": "IntegerComparator", "k": 5, "geq": True, "regs": {"x": [2, 0, 3], "tgt": [1]}, "order": list(range(4)), "matrix": True},
@@ -319,6 +322,10 @@ CORPUS = [
     {"t": "QubitCarry", "regs": {"a": [0], "b": [1], "c": [2], "d": [3]}, "order": list(range(4)), "matrix": True},
     {"t": "QubitSum", "regs": {"a": [0], "b": [1], "c": [2]}, "order": list(range(3)), "matrix": True},
     {"t": "Adder", "k": 5, "mod": 15, "regs": {"x": [0, 1, 2, 3], "work": [4, 5]}, "order": list(range(6)), "matrix": True},
+    # constants outside [0, mod): every rule has to reduce k itself (the constructor stores it unreduced)
+    {"t": "Adder", "k": 6, "mod": 5, "regs": {"x": [0, 1, 2], "work": [3, 4]}, "order": list(range(5)), "matrix": True},
+    {"t": "Adder", "k": -1, "mod": 7, "regs": {"x": [0, 1, 2], "work": [3, 4]}, "order": list(range(5)), "matrix": True},
+    {"t": "Adder", "k": 13, "mod": 5, "regs": {"x": [2, 0, 1], "work": [4, 3]}, "order": list(range(5))},
     {"t": "PhaseAdder", "k": 5, "mod": 7, "regs": {"x": [0, 1, 2, 3], "work": [4]}, "order": list(range(5))},
     {"t": "OutAdder", "mod": 7, "regs": {"x": [0, 1], "y": [3, 4], "out": [7, 8, 2], "work": [6, 5]}, "order": list(range(9))},
     {"t": "Multiplier", "k": 4, "mod": 7, "regs": {"x": [0, 1, 2], "work": [3, 4, 5, 6, 7]}, "order": list(range(8))},
